@@ -105,7 +105,7 @@ def handler_names():
 
 def handler_program(names):
     kinds = (("exec", "ExecCtx", "Response", "Ok(Response::new())"), ("query", "QueryCtx", "Resp", "Ok(Resp {})"), ("sudo", "SudoCtx", "Response", "Ok(Response::new())"))
-    out = ["//@ props: C01 C02 C10 C12\n//@ expect: pass\n"
+    out = ["//@ props: C01 C02 C10 C12 C08\n//@ expect: pass\n"
            f"//@ what: handlers (contract and interface, every enum kind) named like the generator's own functions, the runtime's public functions and the snake_case of every UpperCamel identifier used in templates ({len(names)} names computed on this run): generated items must not collide with, or be captured by, a handler's name\n"
            "#![allow(dead_code, unused_variables, unused_imports, deprecated, clippy::new_without_default, clippy::should_implement_trait, clippy::wrong_self_convention)]\n"
            "use sylvia::ctx::{ExecCtx, InstantiateCtx, QueryCtx, SudoCtx};\n"
@@ -122,6 +122,14 @@ def handler_program(names):
         for n in names + ["new"]:
             out.append(f"        #[sv::msg({kind})]\n        fn {n}(&self, ctx: {ctx}, a: u32) -> Result<{ret}, Self::Error>;\n")
         out.append("    }\n}\n\n")
+    # reply handler NAMES (`handlers=[name]`): they become methods of the SubMsgMethods trait (implemented for SubMsg, WasmMsg and
+    # CosmosMsg) and `<NAME>_REPLY_ID` constants
+    out.append("pub mod c_reply {\n    use super::*;\n    use sylvia::ctx::ReplyCtx;\n    use sylvia::cw_std::{Binary, SubMsgResult};\n    pub struct Contract;\n\n"
+               "    #[entry_points]\n    #[contract]\n    #[sv::features(replies)]\n    impl Contract {\n        pub fn new() -> Self {\n            Self\n        }\n"
+               "        #[sv::msg(instantiate)]\n        fn witness_instantiate(&self, _ctx: InstantiateCtx) -> StdResult<Response> { Ok(Response::new()) }\n")
+    for n in names + ["new"]:
+        out.append(f"        #[sv::msg(reply, handlers=[{n}], reply_on=always)]\n        fn witness_reply_{n}(&self, _ctx: ReplyCtx, witness_result: SubMsgResult, #[sv::payload(raw)] witness_payload: Binary) -> StdResult<Response> {{ Ok(Response::new()) }}\n")
+    out.append("    }\n}\n")
     return "".join(out)
 
 
